@@ -416,6 +416,47 @@ theorem torn_when_counter_aliases :
     simp only [aliasDev, pairProg, Prog.eval]
     split <;> simp
 
+/-! ### the scheduler device of the harness follows the contract -/
+
+theorem filter_le_mono (l : List Nat) (t : Nat) :
+    (l.filter (· ≤ t)).length ≤ (l.filter (· ≤ t + 1)).length := by
+  induction l with
+  | nil => simp
+  | cons a l ih =>
+    simp only [List.filter_cons]
+    by_cases h1 : a ≤ t
+    · have h2 : a ≤ t + 1 := by omega
+      simp [h1, h2, ih]
+    · by_cases h2 : a ≤ t + 1
+      · simp [h1, h2]; omega
+      · simp [h1, h2, ih]
+
+/-- The executable device `Config.schedule` used by the correspondence runs (configuration `k` and
+generation `gen0 + k` modulo `m` after `k` scheduled updates) satisfies `Contract` for every closure,
+as long as fewer than `m` updates are scheduled: the theorem's hypotheses are exactly what the
+harness' devices provide. -/
+theorem schedule_contract {α : Type} (p : Prog Bytes α) (cfgs : List Bytes) (at_ : List Nat) (gen0 m : Nat)
+    (hm : at_.length < m) :
+    Contract m p (schedule cfgs at_ gen0 m) (fun t => gen0 + (at_.filter (· ≤ t)).length) := by
+  refine ⟨?_, ?_, ?_, ?_⟩
+  · intro t
+    have := filter_le_mono at_ t
+    show gen0 + _ ≤ gen0 + _
+    omega
+  · intro t h
+    have hmono := filter_le_mono at_ t
+    show gen0 + _ < gen0 + _
+    apply Classical.byContradiction
+    intro hn
+    have heq : (at_.filter (· ≤ t)).length = (at_.filter (· ≤ t + 1)).length := by omega
+    apply h
+    simp only [schedule, heq]
+  · intro t; rfl
+  · intro t
+    have h1 := List.length_filter_le (· ≤ iterEnd p (schedule cfgs at_ gen0 m) t) at_
+    show gen0 + _ < gen0 + _ + m
+    omega
+
 /-! ### non-vacuity of the bounds part -/
 
 example : access ⟨.mmio, true, 8⟩ 0 4 4 4 = .ok [(4, 4)] := by decide
